@@ -38,6 +38,7 @@ import (
 	"errors"
 	"fmt"
 	"io"
+	"log"
 	"math"
 	"net"
 	"net/http"
@@ -91,6 +92,10 @@ type Case struct {
 	// srv: the first request is answered with this 3xx status and a Location header, the
 	// redirected request with Status/Body (http.Client follows the redirect)
 	Via int `json:"via"`
+	// client variants: shoot.EnableLogging(true) (LoggingMiddleware outermost) and/or a pass-through
+	// middleware registered with shoot.Use before the driver's own one (so it wraps it)
+	Logging bool `json:"logging"`
+	Wrap    bool `json:"wrap"`
 }
 
 type ValObs struct {
@@ -135,6 +140,7 @@ type Obs struct {
 	Panic     string  `json:"panic"`
 	DeclRes   string  `json:"decl_res"` // reflect type of the declared result
 	GotResp   bool    `json:"got_resp"` // the innermost transport produced a response
+	Wrapped   int     `json:"wrapped"`  // round trips seen by the pass-through middleware
 }
 
 // ------------------------------------------------------------ response body
@@ -266,6 +272,7 @@ type state struct {
 	cb       *countBody
 	sent     *sentinel
 	requests int32
+	wrapped  int32
 	verb     string
 	lastURL  string
 	deliv    *string
@@ -480,7 +487,20 @@ func runCase(c Case) (o Obs) {
 		defer scripts.Delete(strconv.Itoa(c.I))
 		defer close(sc.release)
 	}
-	cl := mk(shoot.BaseURL(base), shoot.Use(st.mw()))
+	opts := []Opt{shoot.BaseURL(base)}
+	if c.Logging {
+		opts = append(opts, shoot.EnableLogging(true))
+	}
+	if c.Wrap {
+		opts = append(opts, shoot.Use(func(next http.RoundTripper) http.RoundTripper {
+			return middleware.RoundTripper(func(req *http.Request) (*http.Response, error) {
+				atomic.AddInt32(&st.wrapped, 1)
+				return next.RoundTrip(req)
+			})
+		}))
+	}
+	opts = append(opts, shoot.Use(st.mw()))
+	cl := mk(opts...)
 	cv := reflect.ValueOf(cl)
 	cfg := cv.MethodByName("ConfigHTTPClient")
 	cfg.Call([]reflect.Value{reflect.ValueOf(func(hc *http.Client) {
@@ -575,6 +595,7 @@ func runCase(c Case) (o Obs) {
 		o.Delivered = st.deliv
 	}
 	o.GotResp = st.resp != nil
+	o.Wrapped = int(atomic.LoadInt32(&st.wrapped))
 	if st.rb != nil {
 		o.Reads, o.Closed = int(atomic.LoadInt32(&st.rb.reads)), int(atomic.LoadInt32(&st.rb.closed))
 	}
@@ -594,6 +615,8 @@ func runCase(c Case) (o Obs) {
 		case marker != nil && decErr == marker && isCancelOrTimeout(gotErr):
 			// the decoder handed on the error of the failing body reader
 			e.Same = "decode"
+		case c.Mode == "fault" && (c.Fault == "sentinel" || c.Fault == "both"):
+			// the transport's own error value must arrive: anything else is not "unchanged"
 		case c.Mode == "fault":
 			ref := reference(st, c, base, ctx, nilCtx, mt)
 			if c.Fault == "badbase" || c.Fault == "nilctx" || c.Fault == "marshal" {
@@ -626,7 +649,9 @@ func reference(st *state, c Case, base string, ctx context.Context, nilCtx bool,
 			return nil
 		}
 	}
-	// a fresh, equivalent request through the very same http.Client
+	// a fresh, equivalent request through a hand-written http.Client with the same timeout and the
+	// default transport (NOT through the client's middleware chain: a middleware that rewrites errors
+	// must show up as a difference); only the nil/nil fault lives in the chain itself
 	var rctx context.Context = ctx
 	var c2 context.CancelFunc
 	switch c.Fault {
@@ -652,7 +677,12 @@ func reference(st *state, c Case, base string, ctx context.Context, nilCtx bool,
 	if err != nil {
 		return err
 	}
-	resp, err := st.hc.Do(req)
+	req.Header.Set("X-C10-Case", id)
+	ref := &http.Client{Timeout: st.hc.Timeout}
+	if c.Fault == "nilnil" {
+		ref = st.hc
+	}
+	resp, err := ref.Do(req)
 	if err == nil {
 		resp.Body.Close()
 	}
@@ -666,6 +696,7 @@ func main() {
 	// another process while the cases run (several checks share the machine), port 1 cannot
 	closedPortURL = "http://127.0.0.1:1/base"
 
+	log.SetOutput(io.Discard) // LoggingMiddleware and net/http write to the standard logger
 	par := 6
 	if len(os.Args) > 1 {
 		par, _ = strconv.Atoi(os.Args[1])
